@@ -418,8 +418,10 @@ def extend(ctx, args, st):
     tgt_ref = args[0]
     while isinstance(st.deref(tgt_ref), Ref): tgt_ref = st.deref(tgt_ref)
     tgt = st.deref(tgt_ref)
-    src = as_iter(ctx.ex, st, args[1])
     from .maps import MapV, SetV, map_insert
+    if not isinstance(tgt, (VecV, StrV, MapV, SetV)):
+        return None       # a user type's own Extend impl: run its MIR
+    src = as_iter(ctx.ex, st, args[1])
     def g():
         for s2, items in drain(ctx.ex, st, src.data, ctx.depth):
             if isinstance(items, tuple): yield s2, 'panic', items[1]; continue
@@ -472,4 +474,24 @@ def iter_peek(ctx, args, st):
         for s2, item, inner2 in step(ctx.ex, st, inner, ctx.depth):
             s2.store(r, Py('iter', ('peekable', inner2, (item,) if item is not None else ())))
             yield s2, 'ret', (Some(s2.ref(item)) if item is not None else NONE)
+    return g()
+
+
+@model(r'^itertools::join::<|^itertools::Itertools::join$|^<.* as Itertools>::join$')
+def itertools_join(ctx, args, st):
+    """itertools::join(iter, sep): concatenation of the Display forms -- an abstract string naming its parts"""
+    src = as_iter(ctx.ex, st, args[0])
+    sep = st.deref_all(args[1])
+    def g():
+        for s2, items in drain(ctx.ex, st, src.data, ctx.depth):
+            if isinstance(items, tuple): yield s2, 'panic', items[1]; continue
+            parts = []
+            for x in items:
+                v = s2.deref_all(x) if isinstance(x, Ref) else x
+                parts.append(v.concrete() if isinstance(v, StrV) and v.concrete() is not None else repr(v))
+            sc = sep.concrete() if isinstance(sep, StrV) else repr(sep)
+            if all(isinstance(p, str) for p in parts) and isinstance(sc, str) and all(isinstance(s2.deref_all(x) if isinstance(x, Ref) else x, StrV) for x in items):
+                yield s2, 'ret', StrV(sc.join(parts), 'String')
+            else:
+                yield s2, 'ret', StrV((), 'String', {'name': 'join', 'parts': (('join', sc, tuple(parts)),)})
     return g()
